@@ -139,9 +139,9 @@ func (fi *fileInfo) inTaint(b int) bool {
 }
 
 type rangeChecker struct {
-	w     *world.World
-	infos map[string]map[string]*fileInfo // path -> file -> info
-	r     *Result
+	w        *world.World
+	infos    map[string]map[string]*fileInfo // path -> file -> info
+	r        *Result
 	computed int
 	checked  int
 	upstream int
